@@ -395,6 +395,15 @@ def match_finding(kf, klass, detail, case):
 # ----------------------------------------------------------------------------
 # entry point used by bin/check
 # ----------------------------------------------------------------------------
+TIMING_CLASS = re.compile(r"hang|blocked|unanswered|never-answered|not-answered|does-not-return|not-return|stall|timeout|"
+                          r"no-answer|not-served|not-noticed|stops-serving|not-reached|never-returns", re.I)
+
+
+def timing_only(violations):
+    """every verdict is of a class that says 'did not happen within a wall-clock bound'"""
+    return bool(violations) and all(TIMING_CLASS.search(v.get("class", "")) for v in violations)
+
+
 def main(argv):
     import argparse, importlib
     ap = argparse.ArgumentParser()
@@ -414,6 +423,27 @@ def main(argv):
     try:
         mod = importlib.import_module(a.pid.lower())
         mod.run(ctx)
+        if ctx.violations and timing_only(ctx.violations) and not os.environ.get("VERIF_NO_RERUN") and not a.replay:
+            # Every verdict of this run says that something did not happen within a wall-clock bound.  Code that
+            # blocks does so again; a goroutine that was not scheduled in time on a loaded machine does not.  The
+            # run is repeated once and a timing verdict stands only if its class is reported again (verdicts from
+            # reproduced behaviour only, DESIGN.md 5.1 / 11.5).
+            log("only wall-clock verdicts (%s): the check is run once more, a verdict needs the reproduction"
+                % sorted({v["class"] for v in ctx.violations}))
+            ctx2 = Ctx(a.pid, a.tier, seed, a.replay)
+            try:
+                mod.run(ctx2)
+                again = {v["class"] for v in ctx2.violations}
+                dropped = sorted({v["class"] for v in ctx.violations} - again)
+                if not timing_only(ctx2.violations):
+                    ctx2.extra["first_run_timing_verdicts"] = sorted({v["class"] for v in ctx.violations})
+                    ctx, ctx2 = ctx2, ctx          # the second run found more than timing: it is the run reported
+                else:
+                    ctx.violations = [v for v in ctx.violations if v["class"] in again]
+                    ctx.extra["timing_verdicts_not_reproduced_in_a_second_run"] = dropped
+                    ctx.extra["second_run_wall_s"] = round(time.time() - ctx2.t0, 1)
+            finally:
+                ctx2.cleanup()
         rc = ctx.finish()
     except Infra as e:
         print("INFRA-ERROR property=%s: %s" % (a.pid, e), file=sys.stderr)
